@@ -524,6 +524,8 @@ def part_client_runs(ctx, bases):
         want = masked(ref_runs[k])
         got = MASK.sub('', r['report']).replace('-0.00', '0.00') if r['report'] is not None else 'NO REPORT: ' + re.sub(r'/[^ \'"]*', '<path>', str(r['error']))[:300]
         ctx.count('client-override-runs', evaluations=1, nontrivial_keys=[(name, variant)], variants={variant: 1})
+        if want.startswith('NO REPORT') and got.startswith('NO REPORT'):
+            continue      # the plain file does not run either (the client wraps the exception, the texts differ)
         if got != want:
             diff = [(a, b) for a, b in zip(want.splitlines(), got.splitlines()) if a != b][:6]
             ctx.violate('property', f'client-override:run:{variant}', f'GeophiresInputParameters(params, from_file_path): moving parameters of input {name} '
